@@ -17,7 +17,7 @@ git apply -R SEEDED_patch.diff
 echo "== demo WITHOUT change (must pass)"; go test -count=1 -run "$rx" ./$pkg/ > /tmp/seed_without.txt 2>&1; wo=$?
 tail -3 /tmp/seed_without.txt
 git apply SEEDED_patch.diff
-echo "== existing tests WITH change"; mv $demo /tmp/zz_demo_hold.go; go test -count=1 ./$pkg/... "$@" > /tmp/seed_tests.txt 2>&1; t=$?; mv /tmp/zz_demo_hold.go $demo
+echo "== existing tests WITH change"; mv $demo /tmp/zz_demo_hold.go; if [ "$pkg" = "." ]; then tp=". ./test/"; else tp="./$pkg/..."; fi; go test -count=1 $tp "$@" > /tmp/seed_tests.txt 2>&1; t=$?; mv /tmp/zz_demo_hold.go $demo
 tail -6 /tmp/seed_tests.txt
 echo "RESULT with=$w without=$wo tests=$t"
 if [ $w -ne 0 ] && [ $wo -eq 0 ] && [ $t -eq 0 ]; then
